@@ -443,8 +443,17 @@ func startServers(cfg *config.Config, stats metrics.Provider) {
 			go func() {
 				var buffer strings.Builder
 				lastPorts := []string{}
+				// the ports for which a listener has been started
+				started := map[string]bool{}
+				// without a refresh interval this loop would spin and
+				// look at the table again before the listeners of the
+				// previous round are bound
+				refresh := l.Refresh
+				if refresh <= 0 {
+					refresh = time.Second
+				}
 				for {
-					time.Sleep(l.Refresh)
+					time.Sleep(refresh)
 					table := route.GetTable()
 					ports := []string{}
 					for target, rts := range table {
@@ -463,16 +472,23 @@ func startServers(cfg *config.Config, stats metrics.Provider) {
 					for _, port := range difference(lastPorts, ports) {
 						log.Printf("[DEBUG] Dynamic TCP listener on %s eligable for termination", port)
 						proxy.CloseProxy(port)
+						delete(started, port)
 					}
 					for _, port := range ports {
 						l := l
 						port := port
+						// a second listener for the same port cannot
+						// bind it and would take the process down
+						if started[port] {
+							continue
+						}
 						conn, err := net.Listen("tcp", port)
 						if err != nil {
 							log.Printf("[DEBUG] Dynamic TCP port %s in use", port)
 							continue
 						}
 						conn.Close()
+						started[port] = true
 						log.Printf("[INFO] Starting dynamic TCP listener on port %s ", port)
 						go func() {
 							h := &tcp.DynamicProxy{
